@@ -65,6 +65,9 @@ pub struct AddOpts {
     pub user: u8,
     /// `--data-dir-path` and `--log-dir-path` point to the same directory
     pub same_dir: bool,
+    /// user mode only: no --log-dir-path is given, the per-user default log location is used
+    #[serde(default)]
+    pub default_log: bool,
     /// index into ADD_VERSIONS
     pub version: u8,
     /// index into REWARDS
@@ -276,6 +279,7 @@ fn gen_add(rng: &mut Rng, rich: bool, swarm: &Swarm) -> AddOpts {
     o.user_mode = swarm.user_mode;
     o.user = rng.below(USERS.len() as u64) as u8;
     o.same_dir = swarm.same_dir;
+    o.default_log = swarm.user_mode && !swarm.same_dir && swarm.default_log;
     o.version = rng.below(ADD_VERSIONS.len() as u64) as u8;
     o.rewards = rng.below(REWARDS.len() as u64) as u8;
     o
@@ -289,6 +293,7 @@ struct Swarm {
     ports: bool,
     user_mode: bool,
     same_dir: bool,
+    default_log: bool,
 }
 
 fn gen_swarm(rng: &mut Rng) -> Swarm {
@@ -299,6 +304,7 @@ fn gen_swarm(rng: &mut Rng) -> Swarm {
         ports: rng.chance(3, 4),
         user_mode: rng.chance(1, 2),
         same_dir: rng.chance(1, 6),
+        default_log: rng.chance(1, 3),
     }
 }
 
@@ -582,6 +588,7 @@ fn simpler_adds(o: &AddOpts) -> Vec<AddOpts> {
     reset!(peers.testnet);
     reset!(peers.ignore_cache);
     reset!(same_dir);
+    reset!(default_log);
     reset!(version);
     reset!(rewards);
     if o.user_mode {
@@ -744,5 +751,9 @@ impl Sim for ServicesSim {
 }
 
 fn main() {
+    // the per-user data directory (default log location of user-mode services) lives in the sandbox
+    let xdg = std::path::PathBuf::from(format!("/dev/shm/antsim/{}/xdg", std::process::id()));
+    let _ = std::fs::create_dir_all(&xdg);
+    std::env::set_var("XDG_DATA_HOME", &xdg);
     simkit::check::main::<ServicesSim>();
 }
